@@ -119,8 +119,13 @@ def project(log, desc, layer="L0", wake=False):
             held[(t, L)] = held.get((t, L), 0) + 1
             if held[(t, L)] > 1:
                 continue
-            if t in pend and flock.get(L) == pend[t][0]:
-                out.extend(pend.pop(t)[1])
+            if t in pend and L in flock and (pend[t][0] is None or flock.get(L) == pend[t][0]):
+                pf, acts, is_discard = pend.pop(t)
+                if is_discard:
+                    out.append("A discard %d" % flock[L])
+                    wout.append("A remove %d" % flock[L])
+                else:
+                    out.extend(acts)
             c = top(t)
             if L == X:
                 if t in cur_submit and cur_submit[t]["f"] is None and len(stk.get(t) or []) == cur_submit[t]["depth"]:
@@ -187,21 +192,28 @@ def project(log, desc, layer="L0", wake=False):
             if wF is not None:
                 fut_of_d[nd] = wF[0]
             nd += 1
-        elif k == "fset>" and e[2] in fid:
+        elif k == "fset>":
             c = top(t)
-            # the future becomes done inside set_*(), under its own lock: the action is placed at that acquisition
+            # the future becomes done inside set_*(), under its own lock: the action is placed at that acquisition, which also
+            # identifies the future (its name may not be known yet when submit() has not returned)
+            f_known = fid.get(e[2])
             if c is not None and c["kind"] == "cb" and c["state"] in ("final", "policy"):
                 acts = []
                 if c["state"] == "policy":
                     acts.append("A cbPolicy %d none" % c["d"])
                 acts.append("A cbFinal %d" % c["d"])
                 c["state"] = "done"
-                pend[t] = (fid[e[2]], acts)
+                pend[t] = (f_known, acts, False)
             elif t == worker and c is None:
-                pend[t] = (fid[e[2]], ["A discard %d" % fid[e[2]]])
-                wout.append("A remove %d" % fid[e[2]])
+                pend[t] = (f_known, None, True)
         elif k in ("fset<", "fset!") and t in pend:
-            out.extend(pend.pop(t)[1])
+            pf, acts, is_discard = pend.pop(t)
+            if is_discard:
+                if pf is not None:
+                    out.append("A discard %d" % pf)
+                    wout.append("A remove %d" % pf)
+            else:
+                out.extend(acts)
         elif k == "dcomplete" and e[2] in did:
             out.append("A ddone %d 0" % did[e[2]])
             stk.setdefault(t, []).append({"kind": "cb", "d": did[e[2]], "state": "policy", "nm": e[2]})
